@@ -29,7 +29,7 @@ func init() {
 			"after a failure a second request meets a well-behaved camera. Oracle: success = right URL, correct credentials, stream under the requested path, camera packets reach the requester; failure = 404-style answer, nothing registered, " +
 			"camera connection closed, counters back, no goroutine left, later request dials afresh; concurrent requests end with one registered stream. distinct = event-log hash; non-trivial = a camera fault fired or a pre-emption",
 		Assumptions:    []string{"handshake and play timeouts are those of the code (15 s connect, 45 s read); 'promptly' is checked with a budget of 150 simulated seconds"},
-		RequiredProbes: []string{"c20.success", "c20.failure-clean", "c20.refetch-after-failure", "c20.concurrent-requests", "c20.camera-never-stops", "c20.idle-close-with-live-camera"},
+		RequiredProbes: []string{"c20.success", "c20.failure-clean", "c20.refetch-after-failure", "c20.concurrent-requests", "c20.camera-never-stops", "c20.idle-close-with-live-camera", "c20.cameras-drop-after-race"},
 	})
 }
 
@@ -135,6 +135,29 @@ func buildC20(tier string) sim.Scenario {
 					w.Fail("C20/requester-starved", "requester %d neither receives packets nor was closed", i)
 					return
 				}
+			}
+			if tp.OneIn(3) {
+				// every camera connection drops while the requesters are still attached: each of them — also one left on a
+				// stream that lost the registration race — has to be closed, and nothing may stay registered or counted
+				w.Probe("c20.cameras-drop-after-race")
+				w.Fault("camera-eof@streaming(all connections)")
+				farm.closeAll()
+				w.Sleep(60 * time.Second)
+				for i, r := range recs {
+					if r.nClosed() == 0 {
+						w.Fail("C20/consumer-not-closed", "requester %d of %d simultaneous requests is still attached 60 s after every camera connection dropped (its stream lost the registration race: %v)", i, n, got[i] != reg)
+						return
+					}
+				}
+				if s := media.Get(tg.path); s != nil {
+					w.Fail("C20/stays-registered", "a stream is still registered under %s 60 s after every camera connection dropped", tg.path)
+					return
+				}
+				if d := sw.activeDelta(); d[0] != 0 {
+					w.Fail("C20/conn-count-leak", "active RTSP connection counter is off by %d after every camera connection dropped", d[0])
+					return
+				}
+				return
 			}
 			// the requesters leave; after two idle-close periods at most one camera connection (the registered stream's,
 			// when its route keeps it alive) may remain: the losers of the race were retired and must be gone
